@@ -1,11 +1,13 @@
 """C20 — HTML views are well-formed and never let data break out of its text position."""
 import copy, html as html_lib, html.parser, itertools, json, re
 from harness.lib import tr as trlib
+from harness.translators import html_styles
 
 META = dict(
     id='C20',
-    model_run='PG.Model.Html.run',
-    model_targets=['Model/Html.vo'],
+    model_run='PG.Model.HtmlDoc.run',
+    model_targets=['Model/HtmlDoc.vo'],
+
     technique=('Coq proof over an executable model of Html.element / html.escape / HtmlTreeView (induction on the rendered tree and on the value, any depth, any strings) '
                '+ a strict HTML parser written as a pushdown automaton and proved to read back every rendered tree '
                '+ differential correspondence (model output must equal pg.to_html_str character by character) + sentinel oracle on the real output'),
@@ -789,7 +791,10 @@ def mutate(s, rng):
       x = rng.choice(m); return s[:x.start()] + s[x.end():]
   return s[:i] + rng.choice(['&amp;', '&lt', '&#x27;', '</span>', '<b>', ' open', ' a="b"', '<a b>', '<a b="c" d>']) + s[i:]
 
+GENERATED = {'Gen/HtmlStyles.v': html_styles.translate}
+
 def run(ctx):
+  ctx.regen('Gen/HtmlStyles.v', html_styles.translate)
   ctx.build()
   rng = ctx.rng
   specs = list(LITERALS)
@@ -858,11 +863,21 @@ def run(ctx):
       ctx.hist('output_len', '<1k' if len(out) < 1000 else '<4k' if len(out) < 4000 else '<16k' if len(out) < 16000 else '>=16k')
       outputs.append(out)
     if modelled:
-      trs.append([0, model_options(kw), conv(value, list(kw['root_path'].keys) if 'root_path' in kw else [])])
+      mo, mv = model_options(kw), conv(value, list(kw['root_path'].keys) if 'root_path' in kw else [])
+      trs.append([0, mo, mv])
       impl_outs.append([0, trlib.enc(out)] if out is not None else None)
       descr.append(dict(spec=spec, value=repr(value)[:300], options=repr(kw)[:300]))
+      try:
+        full = render(value, kw, content_only=False)
+      except Exception:
+        full = None
+      trs.append([3, mo, mv])      # the whole document, head included
+      impl_outs.append([3, trlib.enc(full)] if full is not None else None)
+      descr.append(dict(spec=spec, value=repr(value)[:300], options=repr(kw)[:300], what='full document'))
+      if full is not None and len(full) < 9000 and rng.random() < 0.1:
+        outputs.append(full)
   ctx.extra['sentinel_tagged_data'] = nsent
-  n_tree = len(trs)
+  n_tree = len(trs) // 2
   # ---- controls (oracle only)
   nctl = 0
   for which in CONTROL_KINDS:
